@@ -449,7 +449,7 @@ def gen_cases(rep, tier):
             k += 1
             yield (*make_specs(meta, le, 'float64', kind, ri, 'float64'), HOW3, meta)
     # (D) seeded random structured stream
-    nrand = 330 if quick else 6000
+    nrand = 330 if quick else 4500
     for _ in range(nrand):
         kind = rng.choice(KINDS)
         le = rand_points(rng, rng.choice([0, 1, 2, 3, 5, 8]), missing_p=rng.choice([0, 0.15, 0.4]))
